@@ -1635,6 +1635,8 @@ class Interp:
                 raise PyRaise(TypeError("%s is not subscriptable" % obj.cls.__name__))
             return r
         if isinstance(obj, NativeModel):
+            if not hasattr(obj, "__getitem__"):
+                raise Unsupported("the contract's stub is incomplete for the code as it now is: %s is not subscriptable" % type(obj).__name__)
             return obj[idx]
         if isinstance(idx, SV):
             if isinstance(obj, (list, tuple)) and idx.k == "int":
